@@ -82,3 +82,25 @@ EXPORT void vh_q120_primes(uint64_t* out) {
   out[4] = OMEGA1; out[5] = OMEGA2; out[6] = OMEGA3; out[7] = OMEGA4;
   out[8] = Q1_CRT_CST; out[9] = Q2_CRT_CST; out[10] = Q3_CRT_CST; out[11] = Q4_CRT_CST;
 }
+
+// ---- dispatch observation: which kernel did a table / module select?
+#include <stddef.h>
+#include "spqlios/reim/reim_fft_private.h"
+#include "spqlios/cplx/cplx_fft_private.h"
+#include "spqlios/reim4/reim4_fftvec_private.h"
+#define VH_FN0(T) _Static_assert(offsetof(T, function) == 0, "function pointer is not the first field of " #T)
+VH_FN0(struct reim_fft_precomp); VH_FN0(struct reim_ifft_precomp); VH_FN0(struct reim_mul_precomp); VH_FN0(struct reim_addmul_precomp);
+VH_FN0(struct reim_from_znx64_precomp); VH_FN0(struct reim_to_znx64_precomp); VH_FN0(struct reim_to_tnx_precomp);
+VH_FN0(struct cplx_fft_precomp); VH_FN0(struct cplx_ifft_precomp); VH_FN0(struct cplx_mul_precomp); VH_FN0(struct cplx_addmul_precomp);
+VH_FN0(struct cplx_from_znx32_precomp); VH_FN0(struct cplx_from_tnx32_precomp); VH_FN0(struct cplx_to_tnx32_precomp);
+VH_FN0(struct reim4_mul_precomp); VH_FN0(struct reim4_addmul_precomp); VH_FN0(struct reim4_from_cplx_precomp); VH_FN0(struct reim4_to_cplx_precomp);
+EXPORT const void* vh_table_fn(const void* table) { return *(const void* const*)table; }
+EXPORT const void* vh_module_fn(const MODULE* m, const char* name) {
+#define VH_M(f) if (!strcmp(name, #f)) return (const void*)m->func.f;
+  VH_M(vec_znx_zero) VH_M(vec_znx_copy) VH_M(vec_znx_negate) VH_M(vec_znx_add) VH_M(vec_znx_sub) VH_M(vec_znx_rotate)
+  VH_M(vec_znx_automorphism) VH_M(vec_znx_normalize_base2k) VH_M(vec_znx_dft) VH_M(vec_znx_idft) VH_M(vec_znx_idft_tmp_a)
+  VH_M(svp_prepare) VH_M(svp_apply_dft) VH_M(znx_small_single_product) VH_M(vmp_prepare_contiguous) VH_M(vmp_apply_dft)
+  VH_M(vmp_apply_dft_to_dft) VH_M(vec_znx_big_add) VH_M(vec_znx_big_normalize_base2k)
+#undef VH_M
+  return 0;
+}
